@@ -57,6 +57,7 @@ func checkC02(c *Ctx) {
 	st := bidx(c, "B-IDX", fs, exempt)
 	c.Notes = append(c.Notes, fmt.Sprintf("B-IDX: %d sites, %d discharged by the compiler prove pass, %d by LinBounds, %d not proven", st.sites, st.compiler, st.lin, st.unproved))
 	c.MinSites("B-IDX", 60)
+	c03IsOnCurve(c, "P-C03-formulas")
 }
 
 func findCall(f *ssa.Function, name string) *ssa.Call {
